@@ -109,6 +109,9 @@ func VerifH_C02_go_api() {
 			vm.Set("w2", nm)
 			vm.Set("w3", ns)
 			vm.Set("w4", ni)
+			var nfi func(int) int
+			vm.Set("w6", nfi)
+			vm.Run("typeof w6 == 'function' ? w6(1) : 0")
 			vm.Run("[typeof w1, typeof w2, typeof w3, w4, w3[0], w3.length, String(w1)]")
 			// Go values without a JavaScript counterpart: an error, never a panic
 			ch := make(chan int)
